@@ -47,9 +47,25 @@ def mols_for(tier, seed):
 def plan(tier, seed):
     q = tier == "quick"
     mols, cons = mols_for(tier, seed)
-    shards = [{"mols": c, "renum": 3 if q else 5} for c in common.stripe(mols, 15 if q else 46)]
+    shards = [{"mols": c, "renum": 4 if q else 6} for c in common.stripe(mols, 15 if q else 46)]
     shards.append({"mols": cons, "renum": 6, "all_atoms": True})
     return shards
+
+
+def reparse(mol, rng):
+    """same graph rebuilt from a randomly rooted SMILES: atom order *and* bond order change"""
+    m = Chem.Mol(mol)
+    for a in m.GetAtoms():
+        a.SetAtomMapNum(a.GetIdx() + 1)
+    Chem.rdBase.SeedRandomNumberGenerator(rng.randrange(1 << 30))
+    s = Chem.MolToSmiles(m, canonical=False, doRandom=True)
+    new = Chem.MolFromSmiles(s)
+    if new is None or new.GetNumAtoms() != mol.GetNumAtoms():
+        return None, None
+    o2n = {a.GetAtomMapNum() - 1: a.GetIdx() for a in new.GetAtoms()}
+    for a in new.GetAtoms():
+        a.SetAtomMapNum(0)
+    return new, o2n
 
 
 def renumber(mol, rng):
@@ -116,7 +132,10 @@ def work(shard, res, tier, seed):
                 except Exception as e:  # noqa
                     base[(g, i)] = "raised " + type(e).__name__
         for k in range(shard["renum"]):
-            new, o2n = renumber(mol, rng)
+            new, o2n = renumber(mol, rng) if k % 2 == 0 else reparse(mol, rng)
+            if new is None:
+                continue
+            res.count("renumbered_by_%s" % ("RenumberAtoms" if k % 2 == 0 else "reparse"))
             for (g, i), want in base.items():
                 res.ev()
                 res.count("renumbering_evaluated")
@@ -129,37 +148,45 @@ def work(shard, res, tier, seed):
                 if got != want:
                     res.viol("group_membership_depends_on_numbering", case={"smiles": s}, group=g, atom=i,
                              original=want, renumbered=got, order=[o2n[j] for j in range(mol.GetNumAtoms())])
-        # (2) pattern_match vs reference
-        for label, p, key in pats:
+        # (2) pattern_match vs reference (on the molecule as given and on one re-parsed copy)
+        variants = [(mol, atoms)]
+        rp, o2n = reparse(mol, rng)
+        if rp is not None:
+            variants.append((rp, [o2n[i] for i in atoms]))
+        for vmol, vatoms in variants:
+          for label, p, key in pats:
             psyms = {a.GetSymbol() for a in p.GetAtoms()}
-            for i in atoms:
-                if mol.GetAtomWithIdx(i).GetSymbol() not in psyms:
+            mol_, atoms_ = vmol, vatoms
+            for i in atoms_:
+                if mol_.GetAtomWithIdx(i).GetSymbol() not in psyms:
                     continue
                 res.ev()
                 res.count("pattern_match_evaluated")
-                res.case([s, i, key])
+                res.case([Chem.MolToSmiles(mol_, canonical=False), i, key])
                 try:
-                    ok, match = F.pattern_match(mol, i, p)
+                    ok, match = F.pattern_match(mol_, i, p)
                 except Exception as e:  # noqa
                     res.viol("pattern_match_raised", case={"smiles": s}, atom=i, pattern=key,
                              error=repr(e)[:200])
                     continue
                 if ok:
                     res.count("pattern_match_positive")
-                    defects = refmatch.check_mapping(mol, i, p, flatten(match))
+                    defects = refmatch.check_mapping(mol_, i, p, flatten(match))
                     if defects:
                         # the verdict is what the property is about; the returned mapping only
                         # tells us by which mechanism a wrong verdict came about
                         res.count("positive_with_garbled_mapping")
-                        if not refmatch.occurrences_containing(mol, i, p):
-                            res.viol("positive_match_without_real_occurrence", case={"smiles": s}, atom=i,
+                        if not refmatch.occurrences_containing(mol_, i, p):
+                            res.viol("positive_match_without_real_occurrence",
+                                     case={"smiles": Chem.MolToSmiles(mol_, canonical=False)}, atom=i,
                                      pattern=key, label=label, defects=sorted(set(defects)),
                                      pattern_has_ring=p.GetRingInfo().NumRings() > 0,
                                      mapping=sorted(flatten(match)))
                 else:
-                    occ = refmatch.occurrences_containing(mol, i, p)
+                    occ = refmatch.occurrences_containing(mol_, i, p)
                     if occ:
-                        res.viol("occurrence_not_found", case={"smiles": s}, atom=i, pattern=key, label=label,
+                        res.viol("occurrence_not_found", case={"smiles": Chem.MolToSmiles(mol_, canonical=False)}, atom=i,
+                                 pattern=key, label=label,
                                  occurrence=sorted(occ[0].items()))
     res.sample({"molecule": shard["mols"][0], "patterns": len(pats), "groups": len(groups)})
 
